@@ -148,6 +148,11 @@ func (c *checker) goEnv() []string {
 
 // buildReplayBinary compiles the native test binary of pkg with harnesses and verifrt overlaid.
 func (c *checker) buildReplayBinary(pkg string, sched bool) (string, error) {
+	return c.buildReplayBinaryOpt(pkg, sched, false)
+}
+
+// buildReplayBinaryOpt: race=true builds the uninstrumented replay binary with the Go race detector.
+func (c *checker) buildReplayBinaryOpt(pkg string, sched, race bool) (string, error) {
 	ov := interp.RepoOverlay(c.repo, c.verif, c.extra)
 	testFile := filepath.Join(c.work, "zz_verif_replay_"+pkg+"_test.go")
 	os.WriteFile(testFile, []byte(fmt.Sprintf(replayTestTemplate, pkg)), 0o644)
@@ -169,8 +174,15 @@ func (c *checker) buildReplayBinary(pkg string, sched bool) (string, error) {
 		bin = filepath.Join(c.work, "replay_sched_"+pkg+".test")
 	}
 	cmd := exec.Command("go", "test", "-c", "-vet=off", "-overlay", ovFile, "-o", bin, "./"+pkg)
+	if race {
+		bin = filepath.Join(c.work, "replay_race_"+pkg+".test")
+		cmd = exec.Command("go", "test", "-c", "-race", "-vet=off", "-overlay", ovFile, "-o", bin, "./"+pkg)
+	}
 	cmd.Dir = c.repo
 	cmd.Env = c.goEnv()
+	if race {
+		cmd.Env = append(cmd.Env, "CGO_ENABLED=1") // the race detector runtime needs cgo
+	}
 	out, err := cmd.CombinedOutput()
 	if err != nil {
 		return "", fmt.Errorf("building native replay binary failed: %v\n%s", err, out)
@@ -189,6 +201,41 @@ func (c *checker) runReplay(bin, pkg, file string) (*nativeOutcome, error) {
 		return nil, fmt.Errorf("native replay produced no outcome (%v): %v\n%.2000s", e, err, out)
 	}
 	return &no, nil
+}
+
+// runRaceReplay runs a counterexample with real goroutines (no twin scheduler) under the Go race
+// detector, in three start orders, and reports whether a DATA RACE report names both blamed functions.
+func (c *checker) runRaceReplay(bin, pkg, file, site string) (bool, string) {
+	fns := strings.Split(site, " | ")
+	last := ""
+	for round := 0; round < 2; round++ {
+		for order := 0; order < 3; order++ {
+			os.Remove(file + ".out")
+			cmd := exec.Command(bin, "-test.run", "^TestVerifReplay$", "-test.count=1", "-test.timeout=120s")
+			cmd.Dir = filepath.Join(c.repo, pkg)
+			cmd.Env = append(os.Environ(), "VERIF_REPLAY_FILE="+file, "VERIF_RACE=1", fmt.Sprintf("VERIF_RACE_ORDER=%d", order), "GORACE=halt_on_error=0")
+			out, _ := cmd.CombinedOutput()
+			last = string(out)
+			for _, blk := range strings.Split(last, "WARNING: DATA RACE")[1:] {
+				if i := strings.Index(blk, "=================="); i >= 0 {
+					blk = blk[:i]
+				}
+				all := true
+				for _, f := range fns {
+					if !panicSiteMatches(f, blk) {
+						all = false
+					}
+				}
+				if all {
+					return true, blk
+				}
+			}
+		}
+	}
+	if len(last) > 1500 {
+		last = last[len(last)-1500:]
+	}
+	return false, last
 }
 
 var siteRe = regexp.MustCompile(`^\(\*?([^()]+)\.([A-Za-z0-9_]+)\)\.([A-Za-z0-9_]+)`)
@@ -512,6 +559,26 @@ func cmdCheck(args []string) int {
 			// no native twin for this harness: the counterexample is the engine's deterministic decision path
 			vr.status = "confirmed"
 			interpOnly++
+			continue
+		}
+		if vr.v.Kind == "race" {
+			rb, ok := bins[vr.pkg+"+race"]
+			if !ok {
+				var err error
+				if rb, err = c.buildReplayBinaryOpt(vr.pkg, false, true); err != nil {
+					fmt.Fprintln(os.Stderr, err)
+					fmt.Printf("INCONCLUSIVE property=%s reason=native-build-failed\n", prop)
+					return 2
+				}
+				bins[vr.pkg+"+race"] = rb
+			}
+			if ok, report := c.runRaceReplay(rb, vr.pkg, vr.file, vr.v.PanicSite); ok {
+				vr.status = "confirmed"
+				os.WriteFile(vr.file+".race.txt", []byte("WARNING: DATA RACE"+report), 0o644)
+			} else {
+				vr.status = "unconfirmed"
+				notes = append(notes, fmt.Sprintf("race %s (%s) was not reported by the Go race detector: %.300s", filepath.Base(vr.file), vr.v.PanicSite, report))
+			}
 			continue
 		}
 		bin, err := getBin(vr.pkg, vr.sched)
